@@ -811,8 +811,104 @@ func deadlineSwallowed(f *ssa.Function, loop map[*ssa.BasicBlock]bool, read *ssa
 	if deadlineIf == nil {
 		return "" // the loop leaves on any read error (err != nil): nothing can swallow the deadline
 	}
+	// the consumer tests errors.Is(err, os.ErrDeadlineExceeded) on the producer's result: the producer's deadline
+	// branch must keep the read error in the chain (producer/consumer contract across the two functions)
+	if why := deadlineChainDropped(read.Common().StaticCallee()); why != "" {
+		return why
+	}
 	if retryIf != nil && retryIf != deadlineIf && retryIf.Dominates(deadlineIf) {
 		return "the loop relies on the read deadline to end, but CheckProbeRetryable(err) → continue is tested before errors.Is(err, os.ErrDeadlineExceeded): ReadAndParse reports an expired deadline as a retryable no-packet error, so the timeout exit is unreachable and the loop spins for ever on a silent source"
 	}
 	return ""
+}
+
+// deadlineChainDropped inspects the producer (packets.ReadAndParse): on the true edge of its own
+// errors.Is(err, os.ErrDeadlineExceeded) test the returned error must still contain err (returned as is, stored in the
+// Err field of the returned struct literal, or passed to fmt.Errorf under a %w verb). Otherwise a caller that leaves its
+// loop on errors.Is(result, os.ErrDeadlineExceeded) never sees the deadline.
+func deadlineChainDropped(g *ssa.Function) string {
+	if g == nil || len(g.Blocks) == 0 {
+		return ""
+	}
+	found := false
+	for _, b := range g.Blocks {
+		iff, ok := b.Instrs[len(b.Instrs)-1].(*ssa.If)
+		if !ok {
+			continue
+		}
+		cc, ti := condCall(iff)
+		if cc == nil || cc.Common().StaticCallee() == nil || cc.Common().StaticCallee().String() != "errors.Is" || len(cc.Common().Args) != 2 {
+			continue
+		}
+		ld, ok := cc.Common().Args[1].(*ssa.UnOp)
+		if !ok {
+			continue
+		}
+		if gl, ok := ld.X.(*ssa.Global); !ok || gl.Name() != "ErrDeadlineExceeded" {
+			continue
+		}
+		found = true
+		errv := cc.Common().Args[0]
+		tb := b.Succs[ti]
+		ret, ok := tb.Instrs[len(tb.Instrs)-1].(*ssa.Return)
+		if !ok {
+			continue // not an immediate return: some later statement decides; not modelled, stay silent
+		}
+		for _, r := range ret.Results {
+			if !isErrorType(r.Type()) {
+				continue
+			}
+			if !wrapsValue(r, errv, 0) {
+				return "the read helper " + core.FuncName(g) + " reports an expired read deadline with an error that no longer wraps the read error (errors.Is(err, os.ErrDeadlineExceeded) is false for it), but this loop leaves only on that test: on a silent source it spins for ever"
+			}
+		}
+	}
+	_ = found
+	return ""
+}
+
+// wrapsValue: r is v, a struct literal with v stored in one of its fields, or fmt.Errorf(... %w ..., v).
+func wrapsValue(r, v ssa.Value, d int) bool {
+	if d > 4 {
+		return false
+	}
+	if r == v {
+		return true
+	}
+	switch x := r.(type) {
+	case *ssa.MakeInterface:
+		return wrapsValue(x.X, v, d+1)
+	case *ssa.ChangeInterface:
+		return wrapsValue(x.X, v, d+1)
+	case *ssa.Alloc:
+		for _, ref := range *x.Referrers() {
+			if fa, ok := ref.(*ssa.FieldAddr); ok {
+				for _, r2 := range *fa.Referrers() {
+					if st, ok := r2.(*ssa.Store); ok && st.Addr == ssa.Value(fa) && wrapsValue(st.Val, v, d+1) {
+						return true
+					}
+				}
+			}
+		}
+	case *ssa.Call:
+		if cal := x.Common().StaticCallee(); cal != nil && cal.String() == "fmt.Errorf" {
+			if cst, ok := x.Common().Args[0].(*ssa.Const); ok && strings.Contains(cst.Value.ExactString(), "%w") {
+				// varargs slice: stores into the backing array
+				if sl, ok := x.Common().Args[1].(*ssa.Slice); ok {
+					if al, ok := sl.X.(*ssa.Alloc); ok {
+						for _, ref := range *al.Referrers() {
+							if ia, ok := ref.(*ssa.IndexAddr); ok {
+								for _, r2 := range *ia.Referrers() {
+									if st, ok := r2.(*ssa.Store); ok && wrapsValue(st.Val, v, d+1) {
+										return true
+									}
+								}
+							}
+						}
+					}
+				}
+			}
+		}
+	}
+	return false
 }
